@@ -26,7 +26,9 @@ for pid in ALL:
         "level_claimed": {"category": "proof", "text": mod.LEVEL_TEXT, "design_ref": f"DESIGN.md section 5 ({pid})"},
         "level_note": mod.LEVEL_NOTE,
         "technique": getattr(mod, "TECHNIQUE", "Lean 4 theorems about a hand-written executable model; model tied to the code by "
-                             "constants regenerated from the source on every run and by differential correspondence judged by the Lean driver"),
+                             "constants regenerated from the source on every run, by statement-by-statement translations of the source (harness/py2lean.py, "
+                             "harness/tr/*.py -> lean/Serif/Gen/Translated*.lean) proved equal to the model in lean/Serif/Tie/*.lean, and by "
+                             "differential correspondence judged by the Lean driver"),
     })
 
 man = {
